@@ -656,6 +656,65 @@ def run(ck):
                 continue
             stats["new_diffs"] += 1
             ck.report("opt:on-off-differ:" + vlib.slug(c["sql"])[:60], "optimizer changes the answer of `%s` on %s (reference: %s; not explained by any recorded finding)" % (c["sql"], eng, refname), replay=replay)
+    # ---------------------------------------------------------------- (C2) data-modifying statements
+    # INSERT … SELECT / DELETE plans are optimized too: the tables afterwards must be the same whether
+    # the statement ran optimized or as bound (one database per mode; probes run unoptimized)
+    dml_cases = c01_gen.gen_dml_cases(random.Random(ck.seed * 7919 + 5))
+    dreqs = []
+
+    def dml_req(rid, eng, c, mode, exclude=None):
+        dq = [dict({"sql": q, "opt": mode}, **({"exclude": exclude} if exclude is not None else {})) for q in c["dml"]]
+        return {"id": rid, "engine": eng, "setup": c["setup"], "queries": dq + [{"sql": q, "opt": "off"} for q in c["probes"]]}
+    for k, c in enumerate(dml_cases):
+        for eng in ("mem", "disk"):
+            dreqs.append(dml_req("d%d:%s:off" % (k, eng), eng, c, "off"))
+            dreqs.append(dml_req("d%d:%s:on" % (k, eng), eng, c, "on"))
+            dreqs.append(dml_req("d%d:%s:custom" % (k, eng), eng, c, "custom", known_rule_names))
+    dres = {}
+    dchunks = [dreqs[j::8] for j in range(8)]
+    with concurrent.futures.ThreadPoolExecutor(max_workers=8) as ex:
+        for part in ex.map(lambda jc: run_harness(ck, jc[1], "dml%d" % jc[0], stages), enumerate(dchunks)):
+            dres.update(part)
+    dstats = {"cases": len(dml_cases), "compared": 0, "differ": 0, "explained_by_known_rules": 0, "reference_custom": 0, "not_runnable": 0}
+
+    def dkey(a, c):
+        n = len(c["dml"]) + len(c["probes"])
+        if not a or not a["setup_ok"] or len(a["results"]) != n or any(x["class"] != "ok" for x in a["results"]):
+            return None
+        return [sorted(map(tuple, x["rows"])) for x in a["results"]]
+    for k, c in enumerate(dml_cases):
+        for eng in ("mem", "disk"):
+            off, on, cu = (dkey(dres.get("d%d:%s:%s" % (k, eng, m)), c) for m in ("off", "on", "custom"))
+            # reference: the statement run as bound; where the bound plan cannot run (a subquery the executor
+            # has no operator for), the optimizer without the rules of the recorded findings
+            ref, refname = (off, "off") if off is not None else (cu, "custom")
+            if ref is None:
+                dstats["not_runnable"] += 1
+                continue
+            if refname == "custom":
+                dstats["reference_custom"] += 1
+            dstats["compared"] += 1
+            if on == ref:
+                continue
+            dstats["differ"] += 1
+            rp = {"case": c, "engine": eng, "reference": refname, "on": dres.get("d%d:%s:on" % (k, eng)), "ref": dres.get("d%d:%s:%s" % (k, eng, refname)),
+                  "requests": [dml_req("replay-off", eng, c, "off"), dml_req("replay-on", eng, c, "on")]}
+            culprit = None
+            if refname == "custom" or cu == ref:
+                for sig, ex in [se for se in kf_excl if "does-not-terminate" not in se[0]]:
+                    one = run_harness(ck, [dml_req("one", eng, c, "custom", ex)], "done%d" % k, stages).get("one")
+                    if dkey(one, c) == ref:
+                        culprit = sig
+                        break
+                dstats["explained_by_known_rules"] += 1
+                ck.report(culprit or "optimizer:combination-of-known-unsound-rules",
+                          "the tables after `%s` differ between the optimized run and the reference (%s) on %s; they agree again without the rule(s) of this finding" % (
+                              " ; ".join(c["dml"]), refname, eng), replay=rp)
+                continue
+            ck.report("opt:dml-on-off-differ:" + vlib.slug(" ; ".join(c["dml"]))[:60],
+                      "the tables after `%s` differ between the optimized run and the reference (%s) on %s (not explained by any recorded finding)" % (
+                          " ; ".join(c["dml"]), refname, eng), replay=rp)
+    stats["dml"] = dstats
     # every refuted plan rule must have been reproduced on the implementation (corpus cases do that)
     for r in prefuted:
         sigs = [f["sig"] for f in ck.known.values() if f["property"] == "C01" and (r["name"] in (f.get("exclude_rules") or []) or f.get("rule") == r["name"])]
